@@ -1,4 +1,5 @@
 import SigHook.Model.RegistryConc
+import SigHook.Model.Skel
 import SigHook.Lemmas.RegistrySeq
 import SigHook.Lemmas.RegistryConcHand
 import SigHook.Props.C01
@@ -278,5 +279,18 @@ example : Reachable demoEnv 16 [] [[.register true 10 100, .register true 10 101
 past the allocation of the snapshot that also contains 101 -/
 example : ((runSched demoEnv demoSys (List.replicate 24 0 ++ List.replicate 7 1 ++ List.replicate 6 0)).1.threads.map
     (fun th => match th.pc with | .dPlan _ _ tags => tags | .mRunD .. => [0] | _ => [])) = [[0], [100]] := by decide
+
+
+/-! ### tie to the source: the mutators are copy - modify - publish under `data`'s writer lock -/
+
+/-- **C02.mutator_skeleton** — the ordered calls of the three mutators (regenerated from lib.rs on
+every run) are the ones the L6 model's program counters go through: take `data`'s writer lock,
+clone the current contents, publish with one `store`. No mutator reads the registry outside the
+lock. -/
+theorem C02_mutator_skeleton :
+    skelOf regFile "unregister" = ["data.write", "clone", "store"] ∧
+    skelOf regFile "unregister_signal" = ["data.write", "clone", "store"] ∧
+    (skelOf regFile "register_unchecked_impl").take 2 = ["data.write", "clone"] ∧
+    (skelOf regFile "register_unchecked_impl").getLast? = some "store" := by decide
 
 end SigHook.RegConc
